@@ -29,8 +29,12 @@ func readIref(b *box) (err error) {
 		if logLevelInfo() {
 			logInfoBox(&inner).Send()
 		}
-		if err = inner.close(); err != nil && logLevelError() {
-			logError().Object("box", inner).Err(err).Send()
+		if err = inner.close(); err != nil {
+			// whether the rest of the container is abandoned must not depend on
+			// whether the failure is logged
+			if logLevelError() {
+				logError().Object("box", inner).Err(err).Send()
+			}
 			break
 		}
 	}
